@@ -66,7 +66,8 @@ def vec_items(ctx, chk):
     zb = ctx.crate("zvt_builder")
     crates = [zb, ctx.crate("zvt")]
     bodies = [b for b in zb.bodies.values() if b.raw.get("impl_trait") == "zvt_builder::ZvtSerializerImpl" and
-              b.raw.get("name") == "deserialize_tagged" and ty_str(b.raw.get("impl_self")).startswith("alloc::vec::Vec<")]
+              b.raw.get("name") == "deserialize_tagged" and b.raw["defkind"] == "AssocFn" and
+              ty_str(b.raw.get("impl_self")).startswith("alloc::vec::Vec<")]
     if not chk.require(len(bodies) == 1, "C12-e/vec-impl", "Vec<T>::deserialize_tagged", "repeated-field reader not found (%d)" % len(bodies), "",
                        nontrivial=False):
         return
@@ -100,7 +101,8 @@ def optional_untagged(ctx, chk):
     import pathsym as ps
     zb = ctx.crate("zvt_builder")
     bodies = [b for b in zb.bodies.values() if b.raw.get("impl_trait") == "zvt_builder::ZvtSerializerImpl" and
-              b.raw.get("name") == "deserialize_tagged" and ty_str(b.raw.get("impl_self")).startswith("core::option::Option<")]
+              b.raw.get("name") == "deserialize_tagged" and b.raw["defkind"] == "AssocFn" and
+              ty_str(b.raw.get("impl_self")).startswith("core::option::Option<")]
     if not chk.require(len(bodies) == 1, "C12-g/option-impl", "Option<T>::deserialize_tagged", "optional-field reader not found (%d)" % len(bodies),
                        "", nontrivial=False):
         return
@@ -137,14 +139,49 @@ def optional_untagged(ctx, chk):
                 "expected at least two untagged paths (present / absent), found %d" % n_none, "", b.sp(), nontrivial=False)
 
 
+def vec_writer(ctx, chk):
+    """The repeated-field writer tags every element by handing its own tag argument down to the element's serialize_tagged
+    (so that an element kind with its own rule - a nested Vec, an Option - still applies it); it writes no tag bytes of
+    its own and passes no literal `None`."""
+    from discharge import VEx
+    from expr import walk, show
+    from mirlite import callee
+    zb = ctx.crate("zvt_builder")
+    bodies = [b for b in zb.bodies.values() if (b.raw.get("impl_trait") == "zvt_builder::ZvtSerializerImpl" and
+                                                 b.raw.get("name") == "serialize_tagged" and b.raw["defkind"] == "AssocFn" and
+                                                 ty_str(b.raw.get("impl_self")).startswith("alloc::vec::Vec<"))]
+    if not chk.require(len(bodies) == 1, "C12-h/vec-writer", "Vec<T>::serialize_tagged", "repeated-field writer not found (%d)" % len(bodies), "",
+                       nontrivial=False):
+        return
+    root = bodies[0]
+    scope = [root] + [b for b in zb.bodies.values() if b.id.startswith(root.id + "::{closure")]
+    n = 0
+    for b in scope:
+        vx = VEx(b)
+        for bb, t in b.calls():
+            if callee(t) == layout.SER and len(t["args"]) == 2:
+                n += 1
+                a = vx.operand(t["args"][1], bb)
+                from_tag = any((x[0] == "upvar" and x[1] == "tag") or (x[0] == "path" and x[1] in ("tag", "_2")) for x in walk(a))
+                chk.require(from_tag, "C12-h/vec-writer", "Vec<T>::serialize_tagged",
+                            "an element is serialised with %s instead of the tag handed to the vector: element kinds with their own "
+                            "tagging rule (nested Vec, Option) get the wrong layout" % show(a)[:60], "element.serialize_tagged(tag.clone())",
+                            t.get("sp"))
+            elif callee(t) == "zvt_builder::encoding::Encoding::encode" and [ty_str(x) for x in t["f"]["a"]][1:2] == ["zvt_builder::Tag"]:
+                chk.fail("C12-h/vec-writer", "Vec<T>::serialize_tagged", "the vector writes tag bytes itself instead of leaving the tagging to "
+                         "the elements", t.get("sp"))
+    chk.require(n >= 1, "C12-h/vec-writer", "Vec<T>::serialize_tagged", "no element serialisation found", "", root.sp(), nontrivial=False)
+
+
 def run(ctx, chk):
     vec_items(ctx, chk)
+    vec_writer(ctx, chk)
     optional_untagged(ctx, chk)
     # the declared value encoding of a field is only as good as that codec: Default little-endian and BigEndian big-endian in
     # both directions for every integral type (shared with C17-b)
     import rules_c17
     from report import Sub
-    sub17 = Sub(chk, "C12-f", lambda r: r in ("C17-b/byte-order",))
+    sub17 = Sub(chk, "C12-f", lambda r: r == "C17-b/byte-order" or r.startswith("C17-c/"))
     rules_c17.run(ctx, sub17)
     chk.floor("integral codec byte-order obligations (shared with C17-b)", sub17.count, 10)
     mode = "thorough" if ctx.tier == "thorough" else "quick"
